@@ -209,8 +209,11 @@ Definition scalars_meet_definitions : Prop :=
     p * p * 2 ^ 17 < 2 ^ 53 -> (zlen raw - p) * 2 ^ 32 < 2 ^ 53 ->
     exists s, analyze signed p raw = Ok s /\ check_scalars (map (interp signed) raw) p s = true.
 
-(* ---- the full statement of the projection part: for EVERY implementation of the two matrix-vector
-   products and of the residual standard deviation that rounds each product and each sum once (in any
-   order), the reported coefficients and residual pass check_proj.  What is proved of it is the per-row
-   bound for any summation order (Properties.v projection_tree_bound); that gonum's kernels are such an
-   implementation, and the residual tolerance resid_tol, are validated by the correspondence runs only. *)
+(* ---- the projection part.  Its coefficient half is stated as a Prop in Dyadic.v
+   (coefficients_meet_definitions: if every reported coefficient is SOME summation-tree evaluation, in
+   binary64 with one rounding per product and per addition, of its projector row with the record, then
+   chk_coefs accepts) and proved (Properties.v coefficients_meet_definitions_all).  The residual half -
+   "the reported residual is the two-pass standard deviation, evaluated in binary64 in any summation
+   order, of d - B c with B c evaluated by any summation tree  ==>  chk_resid accepts" - is NOT proved:
+   resid_tol is a paper derivation (design.d/C13.md) validated by the correspondence runs.  That gonum's
+   kernels are summation trees of this kind is likewise validated by the runs only. *)
